@@ -231,13 +231,15 @@ def fresh(ctx, w):
 
 def order(ctx, w):
   o = ordr.FuncORD(w, ['sequence'])
-  for s in o.run():
+  sites = o.run()
+  ordr.instrument_order(ctx, w, o, 'ORD/instrument-order', pmfacts.PMFacts().write_keeps_instrument_order())
+  for s in sites:
     if s.kind == 'sorted-traversal':
       ctx.ob('ORD/sorted-traversal', w, s.stmt, True, 'iterates %s' % s.prov.detail, construct=s.what)
       continue
     ok = not s.reasons
     ctx.ob('ORD/' + s.kind, w, s.stmt if s.kind == 'traversal' else s.node, ok,
-           'order-insensitive' if ok else '; '.join(s.reasons) + ' [storage order of %s]' % s.prov.detail, construct=s.what)
+           'order-insensitive' if ok else '; '.join(s.reasons) + ' [storage order of %s]' % s.prov.detail, construct=s.what, unknown=ordr.undecided_reason(s))
 
 
 def ctors(ctx, w, pm):
